@@ -45,7 +45,9 @@ def gen(rng, tier, idx):
     desc = mgen.gen_world_desc(rng.derive("world"), nlooms=(1, 2), ncpus=(1, 4), nprocs=(1, 2), nthreads=(1, 4), models=models)
     g = mgen.Gen(rng.derive("workload"), desc,
                  knobs={"w_state": 14, "w_aff": 8, "w_region": 25, "w_task": 40, "w_flush": 1, "w_filler": 1, "w_idle": 12,
-                        "w_kernel": 0, "pause_needs_region": True, "maxdepth": rk.choice([2, 3, 5]), "p_vcpu": 8})
+                        "w_kernel": 0, "pause_needs_region": True, "maxdepth": rk.choice([2, 3, 5]), "p_vcpu": 8,
+                        # 4% of the runs may close a region over a still-paused body (outside the runtimes' grammar, see DESIGN O1)
+                        "offgrammar_pop": rk.chance(4)})
     for i in range(rk.choice([20, 80, 200, 400])):
         g.step()
     g.finish()
@@ -124,9 +126,12 @@ def run(case, ctx):
                               "line at t=%d rewrites row %d with its current value %d" % (t, row, v), **info)
             cur[row] = v
         for (t, exp) in snaps:
-            if m.offgrammar is not None and t >= m.offgrammar:
+            off = m.offgrammar is not None and t >= m.offgrammar
+            if off and m.offgrammar_kind != "pop-over-paused":
                 info["probes"] = dict(info.get("probes", {}), **{"history left the runtime grammar (comparison stops there)": 1})
                 break
+            if off:
+                info["probes"] = dict(info.get("probes", {}), **{"region closed over a paused body (off-grammar, still compared)": 1})
             vals = [b.at(r, btype, t) for r in range(1, nphy + 1)]
             if any(vals[i] > vals[i + 1] for i in range(nphy - 1)):
                 return result(False, "breakdown-not-sorted", None, "rows at t=%d are %r (not non-decreasing)" % (t, vals), **info)
@@ -158,6 +163,17 @@ def run(case, ctx):
                         ok = False
                         break
                     remaining.remove(hit)
+            if (not ok or remaining) and off:
+                body = W.TASK_BODY_LABEL[model]
+                stale = body in labs and any(len(e) == 1 and next(iter(e)) not in labs and next(iter(e)) in set(
+                    lab for l in w.looms for p in l.procs for lab in p.types[model].values()) for e in exp)
+                if stale:
+                    return result(False, "breakdown-stale-after-offgrammar-resume", "breakdown-stale-after-offgrammar-resume",
+                                  "after a region was closed over a still-paused task body (a history the runtimes do not produce) and the body "
+                                  "resumed, the breakdown at t=%d shows %r where the per-CPU values are %r: the task-body subsystem label is "
+                                  "shown instead of the task type" % (t, labs, [sorted(map(str, e)) for e in exp]), **info)
+                info["probes"] = dict(info.get("probes", {}), **{"off-grammar mismatch of another shape (not compared further)": 1})
+                break
             if not ok or remaining:
                 return result(False, "breakdown-multiset", None,
                               "at t=%d breakdown rows show %r but per-CPU reference values are %r"
